@@ -60,17 +60,17 @@ getStartIndex(
     // We always subtract 1 for C-style index, since
     // XPath indexes from 1.  
 
-    // If we end up with NaN, INF, or -INF, then no possible index
+    // If we end up with NaN or INF, then no possible index
     // can be greater than or equal to that, so just return
     // the start index as the length of the string.  That
     // will result in an empty string, which is what we want.
     if (DoubleSupport::isNaN(theSecondArgValue) == true ||
-        DoubleSupport::isPositiveInfinity(theSecondArgValue) == true ||
-        DoubleSupport::isNegativeInfinity(theSecondArgValue) == true)
+        DoubleSupport::isPositiveInfinity(theSecondArgValue) == true)
     {
         return theStringLength;
     }
-    // Anything less than, or equal to 1 is 0.
+    // Anything less than, or equal to 1 is 0.  That includes -INF:
+    // every index is greater than or equal to it.
     else if (DoubleSupport::lessThanOrEqual(theSecondArgValue, 1) == true)
     {
         assert(DoubleSupport::round(theSecondArgValue) == theSecondArgValue);
@@ -93,7 +93,16 @@ getStartIndex(
                     1),
                 theResult));
 
-        return XalanDOMString::size_type(theResult);
+        // Anything at or beyond the end of the string selects nothing.
+        // Checking this first also keeps the conversion in range.
+        if (theResult >= theStringLength)
+        {
+            return theStringLength;
+        }
+        else
+        {
+            return XalanDOMString::size_type(theResult);
+        }
     }
 }
 
@@ -112,7 +121,6 @@ getSubstringLength(
 {
     assert(theStartIndex < theSourceStringLength);
     assert(DoubleSupport::isNaN(theSecondArgValue) == false);
-    assert(DoubleSupport::isNegativeInfinity(theSecondArgValue) == false);
     assert(DoubleSupport::isPositiveInfinity(theSecondArgValue) == false);
 
     typedef XalanDOMString::size_type   size_type;
@@ -126,6 +134,12 @@ getSubstringLength(
     if (arg3.null() == true)
     {
         return theMaxLength;
+    }
+    else if (DoubleSupport::isNegativeInfinity(theSecondArgValue) == true)
+    {
+        // -INF plus any third argument is -INF or NaN, and no
+        // index is less than that.
+        return 0;
     }
     else
     {
@@ -174,6 +188,12 @@ getSubstringLength(
             if (theTotal <= theXPathStartIndex)
             {
                 return 0;
+            }
+            else if (theTotal > theSourceStringLength)
+            {
+                // Everything up to the end of the string.  Checking this
+                // first also keeps the conversion below in range.
+                return theMaxLength;
             }
             else
             {
